@@ -26,9 +26,18 @@ def parseTriples (j : Json) (k : String) : Except String (List (String × Nat ×
     | .arr #[a, b, c] => do pure ((← asStr a), (← asNat b), (← asNat c))
     | _ => throw "bad triple"
 
-def step (st : St) (j : Json) : Except String (St × Json × List Fired) := do
+def parseFeeds (j : Json) : Option (List (String × Feed)) :=
+  match j.getObjVal? "feeds" with
+  | .ok (.arr a) => some (a.toList.filterMap fun e => match e with
+      | .arr #[.str s, i, d] => some (s, ({ interval := (asInt i).toOption.getD 0, deviationBP := (asInt d).toOption.getD 0 } : Feed))
+      | _ => none)
+  | _ => none
+
+def step (st0 : St) (j : Json) : Except String (St × Json × List Fired) := do
   let op ← jstr j "op"
   if op != "tick" then throw s!"unknown op {op}"
+  -- the chain's current-feed list may have changed before this round
+  let st : St := match parseFeeds j with | some f => { st0 with feeds := f } | none => st0
   let out := (j.getObjVal? "out").toOption.getD Json.null
   let mut fired : List Fired := []
   let now ← jint j "now"
